@@ -107,15 +107,17 @@ func (ms *mapStruct) ptr(offset int64, l int32) ([]byte, error) {
 	//log.Printf("-> reading %d bytes from %d into buffer at offset=%d", readSize, readStart, readOffset)
 	for readSize > 0 {
 		n, err := ms.f.Read(ms.window[readOffset : readOffset+readSize])
-		if err != nil {
+		// Read may return data together with an error (io.EOF in
+		// particular): count what was read before looking at the error.
+		ms.pFdOffset += int64(n)
+		readOffset += int64(n)
+		readSize -= int64(n)
+		if err != nil && readSize > 0 {
 			ms.err = err
 			// TODO: zero the buffer, file has changed mid-transfer
 			return nil, fmt.Errorf("file has changed mid-transfer")
 			break
 		}
-		ms.pFdOffset += int64(n)
-		readOffset += int64(n)
-		readSize -= int64(n)
 	}
 	return ms.window[alignFudge : alignFudge+len], nil
 }
